@@ -47,6 +47,9 @@ type ssut struct {
 	vals  []int
 	spare []*listz.SNode[int] // nodes handed out by Remove/RemoveFront, available for re-insertion
 	quiet bool
+	// window: unobserved-operation window, only the mutators' own results are compared (windows.go);
+	// sparse: a long list, Get is probed at the ends, the middle and around powers of two only (big.go)
+	window, sparse bool
 	// after Swap(i,j) golib may exchange the values (documented) or the nodes: both are the same sequence
 	swapI, swapJ int
 	swapped      bool
@@ -353,6 +356,15 @@ func (s *ssut) apply(op sop) bool {
 	if txt != "" {
 		c.Logf("%s%s", txt, res)
 	}
+	if s.window {
+		if s.swapped {
+			// Swap may exchange values or nodes; without a traversal right behind it the harness
+			// cannot tell which, so the identity of the two positions is learnt again later
+			s.nodes[s.swapI], s.nodes[s.swapJ] = nil, nil
+			s.swapped = false
+		}
+		return !c.Failed()
+	}
 	if s.quiet {
 		s.swapped = false
 		return !c.Failed()
@@ -516,7 +528,11 @@ func (s *ssut) check() bool {
 		}
 		c.Add("slist_all_early_break", 1)
 	}
+	gets := 0
 	for i := -2; i <= want+2; i++ {
+		if s.sparse && !probeIndex(i, want) {
+			continue
+		}
 		var got *listz.SNode[int]
 		if !c.Guard("SList.Get", func() { got = l.Get(i) }) {
 			return false
@@ -524,8 +540,9 @@ func (s *ssut) check() bool {
 		if !s.checkGet(i, got) {
 			return false
 		}
+		gets++
 	}
-	c.Add("slist_gets_compared", int64(want+5))
+	c.Add("slist_gets_compared", int64(gets))
 	c.Add("slist_traversals_compared", 2)
 	c.Max("slist_max_len", int64(want))
 	return true
